@@ -5,23 +5,23 @@ import json, subprocess
 CLAIMED = {
  "C01": dict(level="exploration", engine="E1 storage-sim",
    technique="deterministic simulation: seeded writer histories on simulated sink/source/buffer pools with a deterministic poisoning memory pool, row-by-row reference-model oracle, tape shrinking + replay",
-   text="Seeded search over writer histories (writer kind x option swarm x Write/Flush batching) executed on simulated storage; every row read back through five read paths is compared with the model (the slice handed to the writer). Sampling of histories/configurations, not a proof; the value dimension is seeded generation over four Go struct types.",
+   text="Seeded search over writer histories (writer kind x option swarm x Write/Flush batching) executed on simulated storage; every row read back through five read paths is compared with the model (the slice handed to the writer). Sampling of histories/configurations, not a proof; the schema dimension is four fixed Go struct types, seeded dynamic struct types (reflect.StructOf) and 32 static types generated from them; values are seeded generation with boundary values; writer kinds include one mixing Write and WriteRows.",
    note="Trusts Schema.Deconstruct only as a convenience for row-level comparison (typed values are also compared directly). Library built by go1.26.8 with tags verif,debug (deterministic pool replaces sync.Pool).",
    ref="DESIGN.md §4 C01"),
  "C07": dict(level="exploration", engine="E1 storage-sim",
    technique="deterministic simulation: seeded histories deciding how each bloom filter comes to be (dictionary flush, page re-read from simulated buffer pools, fallback, Reset reuse, WriteRowGroup copy/re-encode, deferred/gzip) and how it is read back over a simulated ReaderAt; oracle = no false negative for any written value",
-   text="Seeded search over filter-construction histories and read-back configurations; every non-null value written to a filtered column chunk must Check true with no error. The value-set dimension is seeded generation (declared); what the simulator adds is the history, the simulated storage behaviour and the deterministic pool state.",
+   text="Seeded search over filter-construction histories and read-back configurations; every non-null value written to a filtered column chunk must Check true with no error, also through a MultiRowGroup view of the file's row groups, and every uncompressed filter is at least as large as the configured bits per value prescribe for its distinct values. The value-set dimension is seeded generation (declared); what the simulator adds is the history, the simulated storage behaviour and the deterministic pool state.",
    note="An absent configured filter is counted as a probe, not reported (absence is not a false negative).",
    ref="DESIGN.md §4 C07"),
  "C08": dict(level="exploration", engine="E1 storage-sim (+E3 scheduler for async mode)",
-   technique="deterministic simulation: seeded seek/read histories on eight reader kinds over simulated storage, checked operation by operation against a cursor reference model; tape shrinking + replay",
+   technique="deterministic simulation: seeded seek/read histories on ten reader kinds (incl. Column.Pages over all row groups and the offset index appearing in the middle of a history) over simulated storage, checked operation by operation against a cursor reference model; tape shrinking + replay",
    text="Seeded search over files (option swarm) and histories of SeekToRow/ReadRows/ReadPage/ReadValues/OffsetIndex operations; after every operation the rows or values returned must be exactly model[cursor:cursor+m], io.EOF only at the end, progress within 8 calls. Sampling of histories and configurations.",
    note="Seek targets within [0, NumRows]; forward-only readers are not given backward seeks; zero-length ReadValues is not exercised. A fifth of the runs use ReadModeAsync under the E3 scheduler (library page goroutines park at every simulated ReadAt), plus a race-detector batch.",
    ref="DESIGN.md §4 C08"),
  "C09": dict(level="exploration", engine="E4 stream-sim",
    technique="deterministic simulation: k sorted inputs with drawn overlap patterns fed through simulated row sources (scripted chunking and EOF styles) or simulated storage, merged and consumed with varying batch sizes or written and read back; oracle over the recorded output: sorted, exact multiset union via hidden (input, sequence) payload, per-input order, dedupe count",
    text="Seeded search over the number of inputs (0..9), key-overlap patterns, sorting-column lists (ascending/descending, nullable, two columns), source chunkings, consumer batch sizes, refinement on/off and read vs WriteRowGroup consumption. The output must be sorted under Schema.Comparator, contain every input row exactly once unaltered, keep each input's rows in order, and hold one row per distinct key when deduplicating.",
-   note="Inputs are sorted with the library's own comparator (its meaning is checked by C10). Each file input is a single row group.",
+   note="Inputs are sorted with the library's own comparator, whose agreement with an independent comparator built from the declared sorting columns is checked on every neighbouring pair (as in C10). Each file input is a single row group.",
    ref="DESIGN.md §4 C09"),
  "C10": dict(level="exploration", engine="E4 stream-sim + E1 storage-sim",
    technique="deterministic simulation: seeded write-batch / read / Reset histories on GenericBuffer, Buffer, RowBuffer then sort.Sort; SortingWriter with drawn run sizes, Flush calls, Reset reuse, simulated spill buffers and sink; oracle = permutation of unique ids, intact rows (checksum), order under an independent comparator and under Schema.Comparator, sorting metadata",
@@ -30,27 +30,27 @@ CLAIMED = {
    ref="DESIGN.md §4 C10"),
  "C11": dict(level="exploration", engine="E1 storage-sim (differential through H3 switches)",
    technique="deterministic simulation: seeded source row groups (files, buffers, merges, wrappers, a foreign RowGroup) written through WriteRowGroup twice - fast paths on, and forced onto the row path by verif-tagged switches - on simulated storage; outputs compared row by row and per-column metadata by metadata; path counters prove which path ran",
-   text="Seeded search over source kinds x source/destination option pairs (equal in half of the runs so the verbatim copy fires). Both executions must read back exactly source.Rows(); the fast output must carry the same codec, encodings, page type, bloom-filter and page-index presence and sorting metadata per column as the row-path output, respect MaxRowsPerRowGroup, start every indexed page on its row, and never route a semantic wrapper (convert, dedupe, foreign) through a chunk-level path.",
+   text="Seeded search over source kinds x source/destination option pairs (equal in half of the runs so the verbatim copy fires). Both executions must read back exactly source.Rows(); the fast output must carry the same codec, encodings, page type, bloom-filter and page-index presence and sorting metadata per column as the row-path output, respect MaxRowsPerRowGroup and ColumnIndexSizeLimit, declare the configured bloom filter compression, keep bloom filters at least as large as prescribed, leave file-backed sources unchanged after Close and Writer.Reset, start every indexed page on its row, and never route a semantic wrapper (convert, dedupe, foreign) through a chunk-level path.",
    note="Where a dictionary falls back to PLAIN (DictionaryMaxBytes set) depends on page boundaries, so PLAIN and dictionary encodings are compared as one class in that configuration only. Expected rows are what source.Rows() returns.",
    ref="DESIGN.md §4 C11"),
  "C13": dict(level="fault_enumeration", engine="E2 fault enumerator",
    technique="deterministic simulation with stored-byte fault injection: page bodies located from raw bytes, every sampled (byte, bit/burst) x access path re-executed on a simulated ReaderAt, oracle = ErrCorrupted and no wrong row",
-   text="For each seeded file the harness enumerates bit flips and short bursts inside page bodies (data and dictionary pages) and drives eight access paths (sequential rows, Reader, typed reader, pages, seek into the page, seek past and back, ReadDictionary, value reader) until error/EOF; a path that needs the page must end with an error satisfying errors.Is(err, ErrCorrupted), deliver no wrong row and not panic. Positions are enumerated per sampled file (quick: sampled bytes, thorough: more bytes x all 8 bits); files are sampled.",
-   note="Header bytes excluded (not checksummed by the format). Needs-the-page is decided from the offset index (pages start on row boundaries). Async read mode is covered by the scheduler engine, not here.",
+   text="For each seeded file the harness enumerates bit flips and short bursts inside page bodies (data and dictionary pages) and drives nine access paths (sequential rows, Reader, typed reader, pages, seek into the page, seek past and back, ReadDictionary, value reader, and in asynchronous read mode a seek into the page the page goroutine has read ahead) until error/EOF; a path that needs the page must end with an error satisfying errors.Is(err, ErrCorrupted), deliver no wrong row and not panic. Positions are enumerated per sampled file (quick: sampled bytes, thorough: more bytes x all 8 bits); files are sampled.",
+   note="Header bytes excluded (not checksummed by the format). Needs-the-page is decided from the offset index (pages start on row boundaries). The asynchronous path reads from a plain byte reader with real goroutines: its oracle (corruption reported or right rows) does not depend on their schedule.",
    ref="DESIGN.md §4 C13"),
  "C14": dict(level="fault_enumeration", engine="E2 fault enumerator",
    technique="deterministic simulation with I/O fault injection: fault-free trace recorded, then one injected sink/source fault or truncation per re-execution, enumerated over byte offsets / call indexes",
-   text="Four enumerations per seeded scenario: sink faults (byte offset x {err, torn, err-after-full, short-noerr} x {sticky, one-shot}), truncation (strict prefixes), source faults during open+read (ReadAt call index x {err, short+err, short+EOF} x cut position incl. page boundaries) and source faults during WriteRowGroup copy. Oracle: an error is returned, or nothing was lost (bytes identical / every row delivered); never a nil Close with missing bytes, never a clean EOF with missing or altered rows, never a panic.",
+   text="Four enumerations per seeded scenario: sink faults (byte offset x {err, torn, err-after-full, short-noerr} x {sticky, one-shot}), truncation (strict prefixes), source faults during open+read (ReadAt call index x {err, short+err, short+EOF} x cut position incl. page boundaries) and source faults during WriteRowGroup copy; a fifth of the source/truncation scenarios run on encrypted files (cuts at module boundaries), and one source path looks up the lazily read bloom filters of a multi-row-group file. Oracle: an error is returned, or nothing was lost (bytes identical / every row delivered); never a nil Close with missing bytes, never a clean EOF with missing or altered rows, never a panic.",
    note="Exactly one fault per execution; after the first reported error the object is abandoned. (len(p), io.EOF) is only legal at the end of the source and is covered as a benign configuration, not as a fault.",
    ref="DESIGN.md §4 C14"),
  "C15": dict(level="exploration", engine="E3 scheduler (+race build)",
    technique="deterministic simulation: real goroutines in one synctest bubble, parked at every simulated ReadAt/Write/pool call and between API calls, released one at a time by a seeded scheduler; results compared with the serial execution; race detector kept effective by hiding scheduler hand-offs",
-   text="Seeded search over five documented concurrency workloads (independent round trips sharing pools and caches; several goroutines on one File with lazily loaded indexes and bloom filters; one goroutine per ColumnWriter; concurrently filled row groups committed in order; asynchronous read mode) and over interleavings at seam granularity. Every task's digest must equal the serial execution's, with no panic, no deadlock and, in the race build, no race report.",
+   text="Seeded search over five documented concurrency workloads (independent round trips sharing pools and caches, read back through Rows and through the typed reader, each opened with a read buffer size nobody used before; several goroutines on one File with lazily loaded indexes and bloom filters; one goroutine per ColumnWriter; concurrently filled row groups committed in order; asynchronous read mode) and over interleavings at seam granularity. Every task's digest must equal the serial execution's, with no panic, no deadlock and, in the race build, no race report.",
    note="Interleavings at seam granularity only; the Go runtime decides select ties and which freshly spawned goroutine starts first, so event hashes of these runs are not compared on replay (decisions are recorded and replayed, the violation class must match). Hitting the decision cap is counted, not reported.",
    ref="DESIGN.md §4 C15"),
  "C16": dict(level="exploration", engine="E1 storage-sim + H2 poison",
    technique="deterministic simulation: seeded read/seek/Reset/Close histories with unrelated writer/reader churn, on a deterministic pool that reuses released objects immediately (LIFO) and poisons released slice memory; held values re-compared with the reference model at every later point",
-   text="Seeded search over files, reader kinds and histories; every typed value ever returned by Read is re-checked against the written value after each later operation and after Close + churn, Rows returned by ReadRows are re-checked right before the next call on the same reader, clones at the end, and everything handed to Write is compared with a pristine copy after Close.",
+   text="Seeded search over files, reader kinds and histories; every typed value ever returned by Read is re-checked against the written value after each later operation and after Close + churn, Rows returned by ReadRows are re-checked right before the next call on the same reader, clones at the end, and everything handed to Write is compared with a pristine copy after Close; rows handed to WriteRows of buffering writers are private copies overwritten right after the call (the writer must not depend on them); map[string]any rows read from files and from in-memory buffers are kept across reuse of the batch and of the buffer.",
    note="An alias is observable only once its memory is released: buffers deliberately left to the garbage collector never change and are not violations.",
    ref="DESIGN.md §4 C16"),
  "C17": dict(level="exploration", engine="E1 storage-sim + cross-build/process digests",
@@ -60,7 +60,7 @@ CLAIMED = {
    ref="DESIGN.md §4 C17"),
  "C18": dict(level="fault_enumeration", engine="E2 fault enumerator",
    technique="deterministic simulation with stored-byte and key fault injection on encrypted files: seeded crypto/rand stream, bit flips over the file image, module truncation, equal-length module swaps, transplants from a twin file with another file id, wrong/missing/failing keys; oracle = error or identical rows, mandatory error inside module envelopes",
-   text="For each seeded encrypted file (both footer modes, footer key only or per-column keys, AAD prefix on/off) the check verifies the round trip incl. a seek/read history, searches the file bytes for every high-entropy written value, and enumerates tampering cases; a full read that needs every module (page index, every row, every bloom filter) must fail, or - only for bytes outside any authenticated module - return exactly the original rows; a missing column key must fail that column only.",
+   text="For each seeded encrypted file (both footer modes, footer key only or per-column keys, AAD prefix on/off; written by fresh writers with configured or library-drawn file identifiers, by one writer instance reused through Reset, through a WriterConfig value, by a SortingWriter, or through BeginRowGroup column writers - the last is a listed known finding) the check verifies the round trip incl. a seek/read history with and without page index and a rewrite of the decrypted row groups through WriteRowGroup into a plain and into a re-encrypting writer, searches the file bytes for every high-entropy written value, and enumerates tampering cases; a full read that needs every module (page index, every row, every bloom filter) must fail, or - only for bytes outside any authenticated module - return exactly the original rows; a missing column key must fail that column only.",
    note="Module envelopes are located by walking length prefixes (no keys needed); quick samples byte offsets (module starts/ends favoured) and caps swap pairs, thorough takes more or all. AES-GCM forgery probability is taken as negligible.",
    ref="DESIGN.md §4 C18"),
  "C20": dict(level="exploration", engine="history + E3 scheduler (+race build)",
